@@ -297,6 +297,41 @@ def check_w5(case):
     return Outcome(nontrivial=len(results) > 1, outcome=f"cuts{len(results)}", fails=fails, transitions=len(results))
 
 
+# ------------------------------------------------------------------ W5b: validator answers do not depend on earlier calls with other settings
+def gen_w5b(tier, seed):
+    settings = [["RC", False], ["RC", True], ["ITS", False], ["ITS", True]]
+    import itertools
+
+    orders = list(itertools.permutations(settings)) if tier != "quick" else [settings[k:] + settings[:k] for k in range(4)] + [settings[::-1]]
+    yield {"orders": [list(map(list, o)) for o in orders]}
+
+
+def check_w5b(case):
+    import json
+    import os
+    import subprocess
+    import sys
+    from mc.core import VERIF
+
+    answers = []
+    for order in case["orders"]:
+        r = subprocess.run([sys.executable, "-m", "mc.flag_history", json.dumps(order)], cwd=VERIF, capture_output=True, text=True, env=dict(os.environ, PYTHONHASHSEED="0"))
+        line = [l for l in r.stdout.splitlines() if l.startswith("RESULT ")]
+        if not line:
+            return Outcome(fails=[Fail("flag_history_helper_failed", r.stderr[-300:], "answers")])
+        answers.append(json.loads(line[0][7:]))
+    fails = []
+    ref = answers[0]
+    for order, a in zip(case["orders"][1:], answers[1:]):
+        for k in ref:
+            if a[k] != ref[k]:
+                fails.append(Fail("validator_answer_depends_on_earlier_calls", f"setting {k}: {a[k]} when asked in order {order}", f"{ref[k]} (asked in order {case['orders'][0]})", key_extra=k))
+    sens = any(ref["RC,False"][i] != ref["RC,True"][i] for i in range(len(ref["RC,False"])))
+    if not sens:
+        fails.append(Fail("harness_vacuous", "no pair is sensitive to ignore_aromaticity", "at least one"))
+    return Outcome(nontrivial=sens, outcome="flag_history", fails=fails[:3], transitions=len(answers) * 4)
+
+
 # ------------------------------------------------------------------ W4: batched clustering (shares C13's pools)
 def gen_w4(tier, seed):
     from mc.checks import c13
@@ -375,6 +410,7 @@ def subchecks(tier, seed):
         Sub("W1r_real_engine", gen_w1r, check_w1r, key=lambda c: f"{c['seq']}|cache={c['cache']}", rule=RULE[tier]),
         Sub("W4_batched_clustering", gen_w4, check_w4, key=lambda c: f"pool{c}", rule=RULE[tier]),
         Sub("W5_validators", gen_w5, check_w5, key=lambda c: c["what"], rule=RULE[tier]),
+        Sub("W5b_flag_history", gen_w5b, check_w5b, key=lambda c: "orders", rule="AAMValidator.smiles_check on 5 pairs under every rotation (thorough: permutation) of the 4 (method, ignore_aromaticity) settings, each order in a fresh interpreter; answers per setting must not depend on the order"),
         Sub("W6_real_pools", gen_w6, check_w6, key=lambda c: c["what"], rule=RULE[tier]),
     ]
 
